@@ -33,6 +33,11 @@
 #include <givaro/montgomery.h>
 #include <givaro/gfq.h>
 #include <givaro/givpoly1.h>
+#include <givaro/zring.h>
+#include <givaro/gf2.h>
+#include <givaro/extension.h>
+#include <givaro/givrational.h>
+#include <givaro/qfield.h>
 #include <recint/recint.h>
 
 using Givaro::Integer;
@@ -87,6 +92,7 @@ static Integer argZ(const Args& a, size_t i) {
     return r;
 }
 static std::string hx(const Integer& z) { return vp::hex(z.get_mpz_const()); }
+static std::string hx(bool v) { return v ? "1" : "0"; }
 static std::string hx(int8_t v) { return vp::hex_ll(v); }
 static std::string hx(int16_t v) { return vp::hex_ll(v); }
 static std::string hx(int32_t v) { return vp::hex_ll(v); }
@@ -332,7 +338,12 @@ static void c_seedrep(const Args& a) {
 //      5  F.nonzerorandom(g, e)
 //      6  F.random(g, e, size)
 //      7  F.nonzerorandom(g, e, size)
-enum Caps { C_SIZE = 1, C_GEN = 2 };   // C_SIZE: has random(g, e, size); C_GEN: init(e, uint64_t) exists (GeneralRingRandIter)
+//      8  typename Ring::RandIter(F, seed, size)      the three-argument constructor (ModularRandIter ignores the size, GIV_randIter clamps it,
+//                                                     GeneralRingRandIter reduces the draw modulo it)
+//      9  typename Ring::RandIter c(F, seed, size), d(F, seed + 977, 2); d = c;   copy ASSIGNMENT between iterators built with different
+//         sampling sizes: sequence 0 is drawn from c, sequence 1 from d -- after the assignment d must behave like c
+enum Caps { C_SIZE = 1, C_GEN = 2, C_CTOR3 = 4, C_ASSIGN = 8 };   // C_CTOR3: Ring::RandIter(F, seed, size); C_ASSIGN: RandIter::operator=
+   // C_SIZE: has random(g, e, size); C_GEN: init(e, uint64_t) exists (GeneralRingRandIter)
 
 // two sequences from the same seed:
 //   rep 0: every draw goes into a destination pre-filled with a non-canonical value;
@@ -347,7 +358,7 @@ static void ring_fn(const Args& a, const Ring& F) {
     bool ran = true;
     for (int rep = 0; rep < 2; ++rep) {
         std::vector<E>& v = s[rep];
-        auto fresh = [&](E& e) { if (rep == 0) set_junk(e); else F.init(e); };
+        auto fresh = [&](E& e) { if (rep == 0) set_junk(e); else { e = E(); F.init(e); } };
         size_t half = rep ? n / 2 : n;                  // rep 1 switches to a copy after `half` draws
         if (fn == 0) {
             typename Ring::RandIter it(F, seed);
@@ -363,6 +374,20 @@ static void ring_fn(const Args& a, const Ring& F) {
             for (size_t i = 0; i < half; ++i) { E e; fresh(e); if (i % 2) nz.random(e); else nz(e); v.push_back(e); }
             Givaro::GeneralRingNonZeroRandIter<Ring, typename Ring::RandIter> c(nz);
             for (size_t i = half; i < n; ++i) { E e; fresh(e); c.random(e); v.push_back(e); }
+        } else if (fn == 8 || fn == 9) {
+            if constexpr ((CAPS & C_CTOR3) != 0) {
+                Res_t size = (Res_t)a.W(5);
+                typename Ring::RandIter it(F, seed, size);
+                if (fn == 8) {
+                    for (size_t i = 0; i < half; ++i) { E e; fresh(e); if (i % 2) it.random(e); else it(e); v.push_back(e); }
+                    typename Ring::RandIter c(it);
+                    for (size_t i = half; i < n; ++i) { E e; fresh(e); c.random(e); v.push_back(e); }
+                } else if constexpr ((CAPS & C_ASSIGN) != 0) {
+                    typename Ring::RandIter d(F, seed + 977, (Res_t)2);
+                    d = it;
+                    for (size_t i = 0; i < n; ++i) { E e; fresh(e); if (rep) d.random(e); else it.random(e); v.push_back(e); }
+                } else ran = false;
+            } else ran = false;
         } else if (fn == 4 || fn == 5) {
             Givaro::GivRandom g(seed);
             for (size_t i = 0; i < half; ++i) { E e; fresh(e); if (fn == 4) F.random(g, e); else F.nonzerorandom(g, e); v.push_back(e); }
@@ -403,8 +428,8 @@ static void ring_fn(const Args& a, const Ring& F) {
     int eq = 1;
     for (size_t i = 0; i < n; ++i) if (!(s[0][i] == s[1][i])) eq = 0;
     std::string r = eq ? "1" : "0";
-    for (size_t i = 0; i < n; ++i) r += " " + hx(s[0][i]);
-    if (!eq) { r += " U"; for (size_t i = 0; i < n; ++i) r += " " + hx(s[1][i]); }
+    for (size_t i = 0; i < n; ++i) r += " " + hx((E)s[0][i]);
+    if (!eq) { r += " U"; for (size_t i = 0; i < n; ++i) r += " " + hx((E)s[1][i]); }
     out(a, r);
 }
 
@@ -421,29 +446,40 @@ static void c_ring(const Args& a) {
     unsigned T = (unsigned)a.W(0);
     using namespace Givaro;
     switch (T) {
-        case 0x1: ring_w<Modular<int8_t>, C_SIZE | C_GEN>(a); break;
-        case 0x2: ring_w<Modular<uint8_t>, C_SIZE | C_GEN>(a); break;
-        case 0x3: ring_w<Modular<int16_t>, C_SIZE | C_GEN>(a); break;
-        case 0x4: ring_w<Modular<uint16_t>, C_SIZE | C_GEN>(a); break;
-        case 0x5: ring_w<Modular<int32_t>, C_SIZE | C_GEN>(a); break;
-        case 0x6: ring_w<Modular<uint32_t>, C_SIZE | C_GEN>(a); break;
-        case 0x7: ring_w<Modular<int64_t>, C_SIZE | C_GEN>(a); break;
-        case 0x8: ring_w<Modular<uint64_t>, C_SIZE | C_GEN>(a); break;
-        case 0x9: ring_w<Modular<int32_t, int64_t>, C_SIZE | C_GEN>(a); break;
-        case 0xa: ring_w<Modular<uint32_t, uint64_t>, C_SIZE | C_GEN>(a); break;
-        case 0x10: ring_w<Modular<float>, C_GEN>(a); break;
-        case 0x11: ring_w<Modular<double>, C_GEN>(a); break;
-        case 0x12: ring_w<ModularBalanced<int32_t>, C_GEN>(a); break;
-        case 0x13: ring_w<ModularBalanced<int64_t>, C_GEN>(a); break;
-        case 0x14: ring_w<ModularBalanced<float>, C_GEN>(a); break;
-        case 0x15: ring_w<ModularBalanced<double>, C_GEN>(a); break;
-        case 0x16: ring_w<Montgomery<int32_t>, 0>(a); break;
+        case 0x1: ring_w<Modular<int8_t>, C_SIZE | C_GEN | C_CTOR3 | C_ASSIGN>(a); break;
+        case 0x2: ring_w<Modular<uint8_t>, C_SIZE | C_GEN | C_CTOR3 | C_ASSIGN>(a); break;
+        case 0x3: ring_w<Modular<int16_t>, C_SIZE | C_GEN | C_CTOR3 | C_ASSIGN>(a); break;
+        case 0x4: ring_w<Modular<uint16_t>, C_SIZE | C_GEN | C_CTOR3 | C_ASSIGN>(a); break;
+        case 0x5: ring_w<Modular<int32_t>, C_SIZE | C_GEN | C_CTOR3 | C_ASSIGN>(a); break;
+        case 0x6: ring_w<Modular<uint32_t>, C_SIZE | C_GEN | C_CTOR3 | C_ASSIGN>(a); break;
+        case 0x7: ring_w<Modular<int64_t>, C_SIZE | C_GEN | C_CTOR3 | C_ASSIGN>(a); break;
+        case 0x8: ring_w<Modular<uint64_t>, C_SIZE | C_GEN | C_CTOR3 | C_ASSIGN>(a); break;
+        case 0x9: ring_w<Modular<int32_t, int64_t>, C_SIZE | C_GEN | C_CTOR3 | C_ASSIGN>(a); break;
+        case 0xa: ring_w<Modular<uint32_t, uint64_t>, C_SIZE | C_GEN | C_CTOR3 | C_ASSIGN>(a); break;
+        case 0x10: ring_w<Modular<float>, C_GEN | C_CTOR3 | C_ASSIGN>(a); break;
+        case 0x11: ring_w<Modular<double>, C_GEN | C_CTOR3 | C_ASSIGN>(a); break;
+        case 0x12: ring_w<ModularBalanced<int32_t>, C_GEN | C_CTOR3 | C_ASSIGN>(a); break;
+        case 0x13: ring_w<ModularBalanced<int64_t>, C_GEN | C_CTOR3 | C_ASSIGN>(a); break;
+        case 0x14: ring_w<ModularBalanced<float>, C_GEN | C_CTOR3 | C_ASSIGN>(a); break;
+        case 0x15: ring_w<ModularBalanced<double>, C_GEN | C_CTOR3 | C_ASSIGN>(a); break;
+        case 0x16: ring_w<Montgomery<int32_t>, C_CTOR3 | C_ASSIGN>(a); break;
+        case 0x17: ring_w<ModularExtended<double>, 0>(a); break;
+        case 0x30: { GF2 F; ring_fn<GF2, C_SIZE | C_CTOR3 | C_ASSIGN>(a, F); break; }
+        case 0x31: { ZRing<int8_t> F; ring_fn<UnparametricZRing<int8_t>, C_GEN | C_CTOR3>(a, F); break; }
+        case 0x32: { ZRing<uint8_t> F; ring_fn<UnparametricZRing<uint8_t>, C_GEN | C_CTOR3>(a, F); break; }
+        case 0x33: { ZRing<int16_t> F; ring_fn<UnparametricZRing<int16_t>, C_GEN | C_CTOR3>(a, F); break; }
+        case 0x34: { ZRing<uint16_t> F; ring_fn<UnparametricZRing<uint16_t>, C_GEN | C_CTOR3>(a, F); break; }
+        case 0x35: { ZRing<int32_t> F; ring_fn<UnparametricZRing<int32_t>, C_GEN | C_CTOR3>(a, F); break; }
+        case 0x36: { ZRing<uint32_t> F; ring_fn<UnparametricZRing<uint32_t>, C_GEN | C_CTOR3>(a, F); break; }
+        case 0x37: { ZRing<int64_t> F; ring_fn<UnparametricZRing<int64_t>, C_GEN | C_CTOR3>(a, F); break; }
+        case 0x38: { ZRing<uint64_t> F; ring_fn<UnparametricZRing<uint64_t>, C_GEN | C_CTOR3>(a, F); break; }
+        case 0x39: { ZRing<double> F; ring_fn<UnparametricZRing<double>, C_GEN | C_CTOR3>(a, F); break; }
         case 0x18: { Modular<Integer> F(argZ(a, 1)); ring_fn<Modular<Integer>, 0>(a, F); break; }
         case 0x1a: { Modular<RU7, RU8> F(toRu<7>(argZ(a, 1))); ring_fn<Modular<RU7, RU8>, 0>(a, F); break; }
         case 0x1b: { Montgomery<RU7> F(toRu<7>(argZ(a, 1))); ring_fn<Montgomery<RU7>, 0>(a, F); break; }
         case 0x1c: { Modular<RecInt::rint<7>> F(toRi<7>(argZ(a, 1))); ring_fn<Modular<RecInt::rint<7>>, 0>(a, F); break; }
-        case 0x20: { GFqDom<int32_t> F((uint32_t)a.W(1), (uint32_t)a.W(2)); ring_fn<GFqDom<int32_t>, C_SIZE>(a, F); break; }
-        case 0x21: { GFqDom<int64_t> F((uint64_t)a.W(1), (uint64_t)a.W(2)); ring_fn<GFqDom<int64_t>, C_SIZE>(a, F); break; }
+        case 0x20: { GFqDom<int32_t> F((uint32_t)a.W(1), (uint32_t)a.W(2)); ring_fn<GFqDom<int32_t>, C_SIZE | C_CTOR3 | C_ASSIGN>(a, F); break; }
+        case 0x21: { GFqDom<int64_t> F((uint64_t)a.W(1), (uint64_t)a.W(2)); ring_fn<GFqDom<int64_t>, C_SIZE | C_CTOR3 | C_ASSIGN>(a, F); break; }
         default: out(a, "BADTYPE");
     }
 }
@@ -489,7 +525,84 @@ static void c_poly(const Args& a) {
     unsigned T = (unsigned)a.W(0);
     if (T == 0x5) { Givaro::Modular<int32_t> F((uint32_t)a.W(1)); poly_run(a, F); }
     else if (T == 0x20) { Givaro::GFqDom<int32_t> F((uint32_t)a.W(1), (uint32_t)a.W(2)); poly_run(a, F); }
+    else if (T == 0x11) { Givaro::Modular<double> F((double)a.W(1)); poly_run(a, F); }
+    else if (T == 0x12) { Givaro::ModularBalanced<int32_t> F((int32_t)a.W(1)); poly_run(a, F); }
+    else if (T == 0x16) { Givaro::Montgomery<int32_t> F((uint32_t)a.W(1)); poly_run(a, F); }
     else out(a, "BADTYPE");
+}
+
+// ------------------------------------------------------------------------------------------
+// D2. Extension<Modular<int32_t>> (extension.h): elements are polynomials over the base field
+// ------------------------------------------------------------------------------------------
+// ext p e seed kind arg = size c0 … U size c0 … U size c0 …
+//   kind 0 random(g, r)   1 random(g, r, int64_t s = arg)   2 random(g, r, b) with b of size arg   3..5 the same through nonzerorandom
+//        6 Extension::RandIter(F, size = arg, seed): the second element drawn (the iterator of rep 2 is a copy taken after the first draw)
+//   three draws from the same seed into destinations that held (0) a longer polynomial of ones, (1) nothing, (2) a shorter non-canonical one
+static void c_ext(const Args& a) {
+    typedef Givaro::Modular<int32_t> BF;
+    typedef Givaro::Extension<BF> EF;
+    BF F((uint32_t)a.W(0));
+    uint32_t e = (uint32_t)a.W(1);
+    EF E(F, e);
+    uint64_t seed = a.W(2); int kind = (int)a.W(3); long arg = (long)a.SW(4);
+    std::string r;
+    for (int rep = 0; rep < 3; ++rep) {
+        Givaro::GivRandom g(seed);
+        EF::Element P, B;
+        if (rep == 0) P.assign((size_t)e + 9, F.one);
+        else if (rep == 2) { P.resize(1); set_junk(P[0]); }
+        switch (kind) {
+            case 0: E.random(g, P); break;
+            case 1: E.random(g, P, (int64_t)arg); break;
+            case 2: B.resize((size_t)arg); E.random(g, P, B); break;
+            case 3: E.nonzerorandom(g, P); break;
+            case 4: E.nonzerorandom(g, P, (int64_t)arg); break;
+            case 5: B.resize((size_t)arg); E.nonzerorandom(g, P, B); break;
+            case 6: {
+                EF::RandIter it(E, Integer((long)arg), Integer(seed));
+                EF::Element Q; it.random(Q);
+                if (rep == 2) { EF::RandIter c(it); c.random(P); } else it(P);
+                break;
+            }
+            default: out(a, "BADKIND"); return;
+        }
+        if (rep) r += " U ";
+        r += vp::hex_ull(P.size());
+        for (size_t i = 0; i < P.size(); ++i) r += " " + hx(P[i]);
+    }
+    out(a, r);
+}
+
+// ------------------------------------------------------------------------------------------
+// D3. QField<Rational>::random / nonzerorandom (qfield.h): numerator and denominator are Integer::random / nonzerorandom draws (GMP's generator)
+// ------------------------------------------------------------------------------------------
+// qf seed pat kind a b = num den T trace U num2 den2
+//   kind 0 random(g, r, int64_t s = a)   1 nonzerorandom(g, r, s = a)   2 random(g, r, B)   3 nonzerorandom(g, r, B)   with B = Rational(a, b)
+//   the draw is made twice from the same generator state into destinations holding different rationals
+static void c_qf(const Args& a) {
+    uint64_t seed = a.W(0); unsigned long long pat = a.W(1); int kind = (int)a.W(2);
+    Integer A = argZ(a, 3), Bd = argZ(a, 4);
+    Givaro::QField<Givaro::Rational> Q;
+    Givaro::GivRandom g(seed | 1);
+    std::string res[2], log1;
+    for (int rep = 0; rep < 2; ++rep) {
+        Givaro::Rational r = rep ? Givaro::Rational(Integer(-7), pow2(70) + 1) : Givaro::Rational(pow2(300) + 7, Integer(3));
+        Givaro::Rational B(1);
+        if (kind >= 2) B = Givaro::Rational(A, Bd);
+        Integer::seeding((uint64_t)seed);
+        tr::begin(pat);
+        switch (kind) {
+            case 0: Q.random(g, r, (int64_t)(long)A); break;
+            case 1: Q.nonzerorandom(g, r, (int64_t)(long)A); break;
+            case 2: Q.random(g, r, B); break;
+            case 3: Q.nonzerorandom(g, r, B); break;
+            default: tr::end(); out(a, "BADKIND"); return;
+        }
+        tr::end();
+        if (rep == 0) log1 = tr::log;
+        res[rep] = hx(r.nume()) + " " + hx(r.deno());
+    }
+    out(a, res[0] + " T" + log1 + " U " + res[1]);
 }
 
 // ------------------------------------------------------------------------------------------
@@ -601,6 +714,8 @@ static void run_case(const Args& a) {
     else if (k == "seedrep") c_seedrep(a);
     else if (k == "ring") c_ring(a);
     else if (k == "poly") c_poly(a);
+    else if (k == "ext") c_ext(a);
+    else if (k == "qf") c_qf(a);
     else if (k == "ru") c_ru(a);
     else if (k == "rurep") c_rurep(a);
     else if (k == "rm") c_rm(a);
@@ -820,6 +935,7 @@ struct Gen {
             if (first) for (uint64_t s : {(uint64_t)2147483647ULL, (uint64_t)4294967294ULL, (uint64_t)1 << 63}) add(hd + H(s) + " 5 0 " + H(n));
             add(hd + H(gseed()) + " 0 0 " + H(n));
             if (caps & C_GEN) for (uint64_t sz : {(uint64_t)0, (uint64_t)1, (uint64_t)2, p / 2 + 1, p}) add(hd + H(gseed()) + " 2 " + H(sz) + " " + H(n));
+            for (uint64_t sz : {(uint64_t)0, (uint64_t)1, (uint64_t)3, p / 2 + 1, p}) { add(hd + H(gseed()) + " 8 " + H(sz) + " " + H(n)); add(hd + H(gseed()) + " 9 " + H(sz) + " " + H(n)); }
             if (caps & C_SIZE) {
                 std::vector<uint64_t> szs = {0, 1, 2, 3, p / 2, p - 1, p, p + 1};
                 uint64_t rmax = (uint64_t)(typename Ring::Residu_t)(~0ULL);
@@ -852,6 +968,21 @@ struct Gen {
         ring_cases<ModularBalanced<float>>(0x14, C_GEN);
         ring_cases<ModularBalanced<double>>(0x15, C_GEN);
         ring_cases<Montgomery<int32_t>>(0x16, 0, true);
+        ring_cases<ModularExtended<double>>(0x17, 0);
+        {   // GF2 and the ZRing family (no modulus)
+            size_t nz = thorough ? 200 : 40;
+            for (int fn : {0, 1, 3, 4, 5, 6, 7, 8, 9}) for (int rpt = 0; rpt < (thorough ? 8 : 3); ++rpt)
+                add("ring 30 2 1 " + H(gseed(fn != 3)) + " " + H(fn) + " " + H(rpt) + " " + H(nz));
+            for (unsigned T = 0x31; T <= 0x39; ++T) {
+                for (int fn : {0, 3, 4, 5}) for (int rpt = 0; rpt < (thorough ? 6 : 2); ++rpt)
+                    add("ring " + H(T) + " 0 1 " + H(gseed(fn == 0 || fn == 4)) + " " + H(fn) + " 0 " + H(nz));
+                for (uint64_t sz : {(uint64_t)0, (uint64_t)1, (uint64_t)2, (uint64_t)3, (uint64_t)100, (uint64_t)127})
+                    { add("ring " + H(T) + " 0 1 " + H(gseed()) + " 2 " + H(sz) + " " + H(nz)); add("ring " + H(T) + " 0 1 " + H(gseed()) + " 8 " + H(sz) + " " + H(nz)); }
+                if (T >= 0x33) for (uint64_t sz : {(uint64_t)255, (uint64_t)256, (uint64_t)32767}) add("ring " + H(T) + " 0 1 " + H(gseed()) + " 2 " + H(sz) + " " + H(nz));
+                if (T >= 0x35) for (uint64_t sz : {(uint64_t)65536, (uint64_t)2147483646ULL, (uint64_t)2147483647ULL}) add("ring " + H(T) + " 0 1 " + H(gseed()) + " 2 " + H(sz) + " " + H(nz));
+                if (T >= 0x37 && T != 0x39) for (uint64_t sz : {(uint64_t)2147483648ULL, (uint64_t)1 << 40, (uint64_t)0x7fffffffffffffffULL}) add("ring " + H(T) + " 0 1 " + H(gseed()) + " 2 " + H(sz) + " " + H(nz));
+            }
+        }
         // big moduli
         std::vector<Integer> big = {Integer(2), Integer(3), Integer(101), pow2(64) - 59, pow2(64) + 13, pow2(127) - 1};
         for (size_t i = 0; i < (thorough ? 8u : 1u); ++i) big.push_back(bigrand(2 + (unsigned)rng.below(126)) | Integer(1));
@@ -878,6 +1009,8 @@ struct Gen {
             // the member functions with an explicit size are called with sizes inside the field only
             for (uint64_t sz : {(uint64_t)0, (uint64_t)1, (uint64_t)2, (uint64_t)3, q / 2 + 1, q - 1, q, q + 1, 2 * q + 1, (uint64_t)0x7fffffff}) {
                 add(hd + H(gseed()) + " 1 " + H(sz) + " " + H(nn));
+                add(hd + H(gseed()) + " 8 " + H(sz) + " " + H(nn));
+                add(hd + H(gseed()) + " 9 " + H(sz) + " " + H(nn));
                 if (sz >= 1 && sz <= q) add(hd + H(gseed()) + " 6 " + H(sz) + " " + H(nn));
                 if (sz >= 2 && sz <= q) add(hd + H(gseed()) + " 7 " + H(sz) + " " + H(nn));
             }
@@ -900,12 +1033,48 @@ struct Gen {
             add("poly 5 " + H(p) + " 1 " + H(gseed()) + " 3 0");
             add("poly 20 " + H(p) + " 1 " + H(gseed()) + " 3 0");
         }
+        // other coefficient domains (the generic polynomial model over the RingDraw classes): Modular<double>, ModularBalanced<int32_t>, Montgomery<int32_t>
+        for (unsigned T : {0x11u, 0x12u, 0x16u}) for (uint64_t p : {(uint64_t)3, (uint64_t)5, (uint64_t)101, (uint64_t)32749, (uint64_t)40503}) for (long d : {0L, 1L, 2L, 7L, 33L}) for (int kind : {0, 1, 3, 4, 5, 7}) {
+            long arg = (kind % 4 == 0) ? d : d + 1;
+            add("poly " + H(T) + " " + H(p) + " 1 " + H(gseed(false)) + " " + H(kind) + " " + H(arg));
+            if (d == 0) add("poly " + H(T) + " " + H(p) + " 1 " + H(gseed()) + " " + H(kind) + " " + vp::hex_ll(kind % 4 == 0 ? -1 : 0));
+        }
         std::vector<std::pair<uint64_t, uint64_t>> pk = {{2, 1}, {2, 4}, {3, 3}, {5, 2}, {101, 1}};
         for (auto& e : pk) for (long d : {0L, 1L, 2L, 9L, 40L}) for (int kind : {0, 1, 3, 4, 5, 7}) {
             long arg = (kind % 4 == 0) ? d : d + 1;
             add("poly 20 " + H(e.first) + " " + H(e.second) + " " + H(gseed()) + " " + H(kind) + " " + H(arg));
         }
         for (auto& e : pk) for (int kind : {2, 6}) add("poly 20 " + H(e.first) + " " + H(e.second) + " " + H(gseed()) + " " + H(kind) + " 0");
+    }
+    void gen_ext() {
+        std::vector<uint64_t> ps = {2, 3, 5, 101, 32749, 46337};
+        std::vector<uint64_t> es = {1, 2, 3, 5, 8};
+        if (thorough) { es.push_back(13); es.push_back(24); }
+        for (uint64_t p : ps) for (uint64_t e : es) {
+            std::string hd = "ext " + H(p) + " " + H(e) + " ";
+            for (int kind : {0, 3}) add(hd + H(gseed(p == 2)) + " " + H(kind) + " 0");
+            for (int kind : {1, 4}) for (long s : {0L, 1L, 2L, (long)e - 1, (long)e, (long)e + 1, 1000L, -1L, -7L, (long)0x7fffffffffffffffL, (long)rng.below(e + 2)}) {
+                if (kind == 4 && s <= 0) continue;             // a non-zero element of size 0 does not exist
+                if (kind == 4 && e == 1 && s >= 1) continue;   // Extension::random(g, r, s >= e) asks for size e - 1 = 0
+                add(hd + H(gseed(p == 2)) + " " + H(kind) + " " + vp::hex_ll(s));
+            }
+            for (int kind : {2, 5}) for (uint64_t s = (kind == 5 ? 1 : 0); s <= e; ++s) add(hd + H(gseed(p == 2)) + " " + H(kind) + " " + H(s));
+            for (uint64_t sz : {(uint64_t)0, (uint64_t)1, (uint64_t)2, p - 1, p, p + 1, (uint64_t)1000003}) add(hd + H(gseed()) + " 6 " + H(sz));
+        }
+    }
+    void gen_qf() {
+        // substitution patterns: real draws, and the extreme values of the GMP contract on the first draws (0 forces the non-zero loops round)
+        std::vector<unsigned long long> pats = {0, 1, 2, 3, 4, 5, 6, 7, 8, 9, 13, 26, 27, 40};
+        for (unsigned long long pt : pats) {
+            for (long s : {1L, 2L, 3L, 8L, 31L, 32L, 63L, 64L, 65L, 128L, 200L}) for (int kind : {0, 1})
+                add("qf " + H(rng.next() >> rng.below(60)) + " " + H(pt) + " " + H(kind) + " " + H(s) + " 1");
+            std::vector<std::pair<Integer, Integer>> bs = {{Integer(1), Integer(2)}, {Integer(2), Integer(3)}, {Integer(7), Integer(2)}, {Integer(6), Integer(4)}, {Integer(101), Integer(100)},
+                {pow2(64), pow2(64) + 1}, {pow2(70) + 3, pow2(65) - 1}, {Integer(3), pow2(130) + 1}, {bigrand(100), bigrand(90)}};
+            for (auto& b : bs) for (int kind : {2, 3}) {
+                if (kind == 3 && b.first < 2) continue;       // a non-zero numerator below 1 does not exist
+                add("qf " + H(rng.next() >> rng.below(60)) + " " + H(pt) + " " + H(kind) + " " + HZ(b.first) + " " + HZ(b.second));
+            }
+        }
     }
     void gen_recint() {
         size_t n = thorough ? 200 : 24;
@@ -922,7 +1091,7 @@ struct Gen {
             for (const Integer& p : ps) add("rm " + H(K) + " " + H(mg) + " " + HZ(p) + " " + H(rng.next()) + " " + H(n));
         }
     }
-    void all() { gen_giv(); gen_int(); gen_ring(); gen_poly(); gen_recint(); }
+    void all() { gen_giv(); gen_int(); gen_ring(); gen_poly(); gen_ext(); gen_qf(); gen_recint(); }
 };
 
 int main(int argc, char** argv) {
